@@ -18,7 +18,7 @@ import (
 func init() {
 	register(&Check{
 		ID: "C13", Level: "exploration", QuickSecs: 200, ThoroughSecs: 1800,
-		Rule:        "inputs to the real main() (hook main mode; stdin/file and stdout/-o alternate): (a) every text printed from the reference ASTs over ALL expression kinds (incl. throw, recovery, code predicates, state blocks, undefined and unused rules) up to 3 nodes x all 32 combinations of -optimize-parser -optimize-grammar -optimize-basic-latin -support-left-recursion -cache, plus -x, -nolint and valid/invalid -alternate-entrypoints; (e) EVERY class text of <= 3 (thorough 4) pieces from plain runes, - ^, escapes and Unicode classes (trailing and doubled hyphens, descending ranges included), with and without i, alone and next to a mergeable class x 4 flag sets; (f) every reference graph over four rules with leaf, chain and self-recursive bodies x 3 flag sets with -optimize-grammar; (d) 3-rule reference graphs with mutually dependent nullability (A <- w(B) / w(C) / end, B and C aliases of A; 3750 grammars x 4 flag sets) through the analysis and builder; (b) every single-token edit (delete, duplicate, replace by each of 34 tokens) of a 40-text corpus covering the whole syntax x 2 flag sets (thorough 4); (c) EVERY byte string up to length 2 over all 256 bytes and up to length 3 over the 22 grammar-significant bytes (thorough: 3 and 4) x 4 flag sets. Oracle: main() returns (10 s watchdog, re-run before believed), no Go panic escapes, exit 0 => stdout is a complete Go file (go/parser accepts it) and stderr is empty, exit != 0 => a diagnostic on stderr, a text the front-end rejects never exits 0, -x never writes a parser. A stratified subset is replayed through the real pigeon binary (same exit status, no goroutine trace). Non-trivial = texts that are accepted (exit 0) or rejected by the builder rather than the front-end.",
+		Rule:        "inputs to the real main() (hook main mode; stdin/file and stdout/-o alternate): (a) every text printed from the reference ASTs over ALL expression kinds (incl. throw, recovery, code predicates, state blocks, undefined and unused rules) up to 3 nodes x all 32 combinations of -optimize-parser -optimize-grammar -optimize-basic-latin -support-left-recursion -cache, plus -x, -nolint and valid/invalid -alternate-entrypoints; (e) EVERY class text of <= 3 (thorough 4) pieces from plain runes, - ^, escapes and Unicode classes (trailing and doubled hyphens, descending ranges included), with and without i, alone and next to a mergeable class x 4 flag sets; (g) all pairs of two-alternative bodies over 8 alternatives with self and mutual references (SCCs with and without a leader) x {-, -support-left-recursion, +-optimize-grammar}; (f) every reference graph over four rules with leaf, chain and self-recursive bodies x 3 flag sets with -optimize-grammar; (d) 3-rule reference graphs with mutually dependent nullability (A <- w(B) / w(C) / end, B and C aliases of A; 3750 grammars x 4 flag sets) through the analysis and builder; (b) every single-token edit (delete, duplicate, replace by each of 34 tokens) of a 40-text corpus covering the whole syntax x 2 flag sets (thorough 4); (c) EVERY byte string up to length 2 over all 256 bytes and up to length 3 over the 22 grammar-significant bytes (thorough: 3 and 4) x 4 flag sets. Oracle: main() returns (10 s watchdog, re-run before believed), no Go panic escapes, exit 0 => stdout is a complete Go file (go/parser accepts it) and stderr is empty, exit != 0 => a diagnostic on stderr, a text the front-end rejects never exits 0, -x never writes a parser. A stratified subset is replayed through the real pigeon binary (same exit status, no goroutine trace). Non-trivial = texts that are accepted (exit 0) or rejected by the builder rather than the front-end.",
 		Assumptions: []string{"exit() mocked inside the hook server; a sample is replayed through the real binary", "no wall-clock oracle: only a hang >10 s is reported"},
 		Run:         runC13,
 	})
@@ -303,6 +303,44 @@ func runC13(c *ShardCtx) {
 		c.Res.Grammars++
 		for _, m := range []int{2, 3, 31} {
 			x.build(text, m)
+		}
+	}
+	// (g) two rules, each alternative from {A, B, A 'a', B 'a', A B 'z', B A 'z', "", 'a'}: every pair of
+	// two-alternative bodies (self loops, mutual recursion, SCCs without a leader) through the
+	// left-recursion analysis with and without -support-left-recursion
+	{
+		lit := peg.Lit
+		alts := func() []*peg.Expr {
+			return []*peg.Expr{peg.Ref("A"), peg.Ref("B"), peg.Seq(peg.Ref("A"), lit("a")), peg.Seq(peg.Ref("B"), lit("a")), peg.Seq(peg.Ref("A"), peg.Ref("B"), lit("z")), peg.Seq(peg.Ref("B"), peg.Ref("A"), lit("z")), lit(""), lit("a")}
+		}
+		n := len(alts())
+		cnt := 0
+		for i := 0; i < n; i++ {
+			for j := 0; j < n; j++ {
+				for k := 0; k < n; k++ {
+					for l := 0; l < n; l++ {
+						cnt++
+						if !c.Thorough() && cnt%3 != 0 {
+							continue
+						}
+						idx++
+						if !c.Mine(idx) {
+							continue
+						}
+						if c.Expired("family g") {
+							return
+						}
+						a := alts()
+						b := alts()
+						g := &peg.Grammar{Rules: []*peg.Rule{{Name: "A", Expr: peg.Choice(a[i], a[j], lit("q"))}, {Name: "B", Expr: peg.Choice(b[k], b[l], lit("r"))}}}
+						text := []byte(peg.Print(g, &peg.PrintOpts{Package: "p"}))
+						c.Res.Grammars++
+						for _, m := range []int{0, 8, 10} {
+							x.build(text, m)
+						}
+					}
+				}
+			}
 		}
 	}
 	// (d) rule-reference graphs whose nullability is mutually dependent (the analysis iterates to
